@@ -17,7 +17,11 @@ PREFIX = re.compile(r"^(.*?):(-?\d+): ")
 
 
 def correspond(ctx):
-    return c08.correspond(ctx, n=ctx.scale(3000, 60000))
+    corr = c08.correspond(ctx, n=ctx.scale(3000, 60000))
+    # the keyword handlers translated into Gen/Dispatch.v (friend outside a class, extern blocks in a class): interpreter vs code
+    from harness import dispatchcorr
+    dispatchcorr.correspond_dispatch(ctx, corr, only=('friend', 'extern'))
+    return corr
 
 
 def check_any(text, fname="<str>"):
